@@ -319,7 +319,7 @@ impl Monitor for C05 {
             }
     }
     fn rule(&self) -> &'static str {
-        "case = one indexed text (classes of C03 incl. several sentinel-separated sequences; length 1-300 quick / up to 5000 thorough), one Occ rate from \
+        "case = one indexed text (classes of C03 incl. several sentinel-separated sequences and collections of 240-420 short sequences; length 1-300 quick / up to 5000 thorough), one Occ rate from \
          {1,2-7,63-66,128,129,n,2n,65-124}, one SA sampling rate, and 4-24 sentinel-free patterns over the index alphabet (text substrings, substrings with one \
          symbol changed at front/middle/end, runs, random, longer than the text, single symbols, alphabet symbols absent from the text). Every search is done \
          through borrowed, owned and Arc components (results must be identical) and judged against naive substring search: result kind, matched suffix length, and \
@@ -341,6 +341,14 @@ impl Monitor for C05 {
                     ("directed:thue-morse", t)
                 }
                 5 => ("directed:equal-seqs", b"ACGT$ACGT$ACGT$".to_vec()),
+                6 if !ctx.tiny() => {
+                    let mut t = Vec::new();
+                    for i in 0..300usize {
+                        t.extend_from_slice(&[b"ACGT"[i % 4], b"ACGT"[(i / 4) % 4], b"ACGT"[(i / 16) % 4]][..1 + i % 3]);
+                        t.push(b'$');
+                    }
+                    ("directed:300-sequences", t)
+                }
                 _ => {
                     let s = pick_sentinel(rng);
                     let (_, t) = sentinel_text(rng, rng.clone().range(10, 120), s, (g % 3) as usize);
@@ -351,6 +359,17 @@ impl Monitor for C05 {
             self.text_case(ctx, rng, cls, text.clone(), false);
             self.text_case(ctx, rng, cls, text, true);
             return;
+        }
+        if rng.chance(1, if ctx.tiny() { 1000 } else { 60 }) {
+            // a large collection: hundreds of sentinel-separated sequences (more sentinel ranks than fit into a byte)
+            let nseq = rng.range(240, 420);
+            let mut t = Vec::new();
+            for _ in 0..nseq {
+                t.extend(rng.bytes_over(b"ACGT", rng.clone().range(1, 4)));
+                t.push(b'$');
+            }
+            ctx.count("texts_with_more_than_250_sequences", (nseq > 250) as u64);
+            return self.text_case(ctx, rng, "many-sequences", t, threads_only);
         }
         let sentinel = pick_sentinel(rng);
         let maxn = ctx.by_tier(30, 300, 5000);
